@@ -52,6 +52,9 @@ KNOWN DEFECT CLASSES, excluded by construction behind flags (flip to False once 
                only the `left` field of that query is skipped.
 * EXCLUDE_N1   (new) absolute zone (relativize=False) whose origin is learned from `$ORIGIN`
                (from_text(origin=None)): the origin is passed explicitly instead.
+* EXCLUDE_N2   (new) `zone.writer()` on a freshly constructed dns.btreezone.Zone raises ValueError
+               ("original BTree is not immutable") and leaks the write lock: the one-big-
+               transaction load uses `zone.writer(replacement=True)` instead.
 """
 
 from hypothesis import strategies as st
@@ -92,7 +95,7 @@ ASSUMPTIONS = [
     "is_delegation is read as 'the query name is at or below a cut', left/right as bounds among "
     "non-occluded names (property statement; see SCOPING in the module docstring)",
     "the apex node always exists; dns.name.Name.predecessor/successor only supply query names",
-    "excluded by construction while the corresponding defect is open: D14, D15, D16, D17, N1 "
+    "excluded by construction while the corresponding defect is open: D14, D15, D16, D17, N1, N2 "
     "(counted as excluded:* classes)",
 ]
 
@@ -101,6 +104,7 @@ EXCLUDE_D15 = True
 EXCLUDE_D16 = True
 EXCLUDE_D17 = True
 EXCLUDE_N1 = True
+EXCLUDE_N2 = True
 
 # ---------------------------------------------------------------------------
 # pools
@@ -159,8 +163,10 @@ LITS = [
 
 TYPES = {"SOA": 6, "NS": 2, "A": 1, "TXT": 16}
 RDTEXT = {
-    "SOA": ["ns1.example. hostmaster.example. 1 7200 900 1209600 300"],
-    "NS": ["ns1.example.", "ns2.example."],
+    # targets outside both origins: the zone reader must not relativize them, so that the
+    # rdata loaded from text and the rdata passed to a transaction are the same value
+    "SOA": ["ns1.nic.test. hostmaster.nic.test. 1 7200 900 1209600 300"],
+    "NS": ["ns1.nic.test.", "ns2.nic.test."],
     "A": ["10.0.0.1", "10.0.0.2"],
     "TXT": ['"t1"', '"t2"'],
 }
@@ -402,7 +408,10 @@ def _load(ctx, case, ops, via):
             zone_factory=cls,
         )
     zone = cls(origin, relativize=ctx.rel)
-    with zone.writer() as txn:
+    if EXCLUDE_N2:
+        # a plain writer() on a freshly constructed zone raises (and leaks the write lock)
+        ctx.classes.add("excluded:N2")
+    with zone.writer(replacement=bool(EXCLUDE_N2)) as txn:
         _apply_ops(ctx, txn, ops)
     return zone
 
